@@ -125,6 +125,8 @@ type Exec struct {
 	lastNow     string
 	scaled      map[string]scaledTerm
 	randDraws   int
+	digests     []digestTerm
+	globApps    [][2]string
 	maxRand     int
 	maxCex      int
 	tier        int
@@ -435,6 +437,14 @@ func (e *Exec) model() map[string]string {
 		}
 	}
 	nNames := len(q)
+	for _, d := range e.digests {
+		q = append(q, d.term, d.arg)
+	}
+	nDig := len(q)
+	for _, g := range e.globApps {
+		q = append(q, "(globmatch "+g[0]+" "+g[1]+")", g[0], g[1], "(metafree "+g[0]+")")
+	}
+	nGlob := len(q)
 	litNames := e.solver.litNames()
 	q = append(q, litNames...)
 	e.solver.send("(get-value (" + strings.Join(q, " ") + "))")
@@ -448,7 +458,7 @@ func (e *Exec) model() map[string]string {
 		return m
 	}
 	litAbs := map[string]string{} // abstract value -> literal string
-	for i := nNames; i < len(q); i++ {
+	for i := nGlob; i < len(q); i++ {
 		litAbs[vals[i]] = e.solver.litOf(q[i])
 	}
 	strVals := map[string][]string{} // abstract value -> names
@@ -495,6 +505,80 @@ func (e *Exec) model() map[string]string {
 		used[s] = true
 		for _, n := range strVals[a] {
 			m[n] = s
+		}
+	}
+	// realise glob patterns: a pattern token becomes a real gobwas pattern that matches exactly the
+	// strings the model says it matches ("*" / the literal itself / an alternation {a,b})
+	if len(e.globApps) > 0 {
+		absToStr := map[string]string{}
+		for a, names := range strVals {
+			absToStr[a] = m[names[0]]
+		}
+		for a, l := range litAbs {
+			if _, ok := absToStr[a]; !ok {
+				absToStr[a] = l
+			}
+		}
+		matched := map[string][]string{} // pattern abstract value -> matched strings
+		seenPat := map[string]bool{}
+		metafree := map[string]bool{}
+		for k := range e.globApps {
+			base := nDig + 4*k
+			pAbs, sAbs := vals[base+1], vals[base+2]
+			seenPat[pAbs] = true
+			if vals[base+3] == "true" {
+				metafree[pAbs] = true
+			}
+			if vals[base] == "true" {
+				if str, ok := absToStr[sAbs]; ok && !containsStr(matched[pAbs], str) {
+					matched[pAbs] = append(matched[pAbs], str)
+				}
+			}
+		}
+		for pAbs := range seenPat {
+			names := strVals[pAbs]
+			if len(names) == 0 {
+				continue // the pattern is a literal
+			}
+			if _, isLit := litAbs[pAbs]; isLit {
+				continue
+			}
+			var pat string
+			switch {
+			case metafree[pAbs]:
+				continue // keeps its plain spelling: matches exactly itself
+			case len(matched[pAbs]) == 0:
+				pat = "~nomatch~" + m[names[0]]
+			default:
+				pat = "{" + strings.Join(matched[pAbs], ",") + "}"
+			}
+			for _, n := range names {
+				m[n] = pat
+			}
+		}
+	}
+	// realise digests: a token that the model equates with hexenc(sha256raw(arg)) is spelled as the
+	// real SHA-256 of arg's spelling
+	if len(e.digests) > 0 {
+		absToStr := map[string]string{}
+		for a, names := range strVals {
+			absToStr[a] = m[names[0]]
+		}
+		for a, l := range litAbs {
+			if _, ok := absToStr[a]; !ok {
+				absToStr[a] = l
+			}
+		}
+		for k := 0; k < len(e.digests); k++ {
+			dAbs, aAbs := vals[nNames+2*k], vals[nNames+2*k+1]
+			argStr, ok := absToStr[aAbs]
+			if !ok {
+				continue
+			}
+			real := realShaHex(argStr)
+			for _, n := range strVals[dAbs] {
+				m[n] = real
+			}
 		}
 	}
 	return m
@@ -2010,4 +2094,13 @@ func (e *Exec) scaledPair(x, y value, a, b string) (string, string, bool) {
 		return "(bvmul " + bvConst(st.mul/g, 64) + " " + st.base + ")"
 	}
 	return side(sx, cx, xc), side(sy, cy, yc), true
+}
+
+func containsStr(l []string, x string) bool {
+	for _, e := range l {
+		if e == x {
+			return true
+		}
+	}
+	return false
 }
